@@ -433,6 +433,11 @@ def gen_request(rng, prefix, overflow, is_last, allow_big):
     elif framing == "chunked":
         special.append((mixcase(rng, b"Transfer-Encoding"),
                         rng.choice([b" chunked", b"chunked", b" Chunked", b" CHUNKED ", b"\tchunked\t"])))
+        if is_last and rng.random() < 0.25:
+            # a Content-Length beside the transfer coding (the connection closes after such a message): if
+            # the message is delivered, CONTENT_LENGTH is still the length of the decoded body
+            special.append((mixcase(rng, b"Content-Length"),
+                            b" " + rng.choice([b"5", b"0", b"4000", b"%d" % len(body), b"%d" % (len(body) + 17), b"1"])))
     elif rng.random() < 0.25:
         special.append((mixcase(rng, b"Content-Length"), rng.choice([b" 0", b"0", b" 00 ", b" 0\t"])))
     # persistence: every request but the last must leave the connection open
@@ -496,7 +501,11 @@ def canonical(outs, nreq=None):
     if nreq is not None and len(outs) != nreq:
         return False
     for o in outs:
-        if o.kind != "deliver" or o.may_refuse or o.zones:
+        if o.kind == "deliver" and set(o.zones) == {"cl+te"} and o is outs[-1]:
+            # a Content-Length beside 'chunked' on the last message: may be refused with 400; if it is
+            # delivered its environ is judged like any other (run_stream)
+            pass
+        elif o.kind != "deliver" or o.may_refuse or o.zones:
             return False
         if o.version not in ("1.0", "1.1"):
             return False
@@ -707,6 +716,12 @@ def run_stream(acc, data, cfg, unix, addr, how, lazy, nreq=None, sample=False):
         acc.violation("hang", f"no quiescence within {res.steps} steps", case)
     calls = res.calls
     for i, o in enumerate(outs):
+        if i >= len(calls) and "cl+te" in o.zones:
+            acc.evaluations += 1
+            acc.count("cl+te:refused")
+            break
+        if "cl+te" in o.zones:
+            acc.count("cl+te:delivered")
         if i >= len(calls):
             acc.evaluations += 1
             acc.violation("not-delivered",
